@@ -8,6 +8,7 @@ from harness.run import Result
 from harness.common import struct_hash
 
 ID = "C17"
+LEVEL_TEXT = ("Lean 4 theorems about the executable model of the code (all inputs, by induction), tied to /repo by tables regenerated on every run (decide) and by differential execution of model and implementation; the property oracle is also run on the implementation for every case. PARTIAL: what is proved is the layout of CREATE / CREATE INDEX / DROP statements (columns and constraints once and in order, flags); that SQLite creates exactly the described schema objects is EXECUTED (PRAGMA read-back), not proved; PERIOD FOR / SYSTEM VERSIONING / UNLOGGED are outside SQLite's grammar and are checked structurally only.")
 LEAN_MODULES = ["Pypika.Props.C17"]
 THEOREMS = ["Pypika.C17.columns_once_in_order", "Pypika.C17.body_count", "Pypika.C17.uniques_in_order", "Pypika.C17.column_doc",
             "Pypika.C17.column_default", "Pypika.C17.as_select_exclusive", "Pypika.C17.table_flags",
